@@ -31,6 +31,8 @@ class Contract(object):
         self.props = list(props)
         self.requires_ = []       # [(label, ir)]
         self.ensures_ = []        # [(label, ir)]
+        self.defines_ = []        # [(label, ir, text)] definitional clauses: introduce a symbol as "the value this function returns";
+                                  # assumed at call sites, not checked against the body (listed in evidence)
         self.raises_ = {}         # exc class name -> condition ir (when it MUST/MAY be raised); None = may
         self.raises_iff = []      # [(exc name, cond ir)]
         self.modifies_ = None     # None = unspecified (no frame check); [] = pure
@@ -59,6 +61,10 @@ class Contract(object):
 
     def ensures(self, expr, label=None):
         self.ensures_.append((label or 'post#%d' % (len(self.ensures_) + 1), parse_expr(expr), expr))
+        return self
+
+    def defines(self, expr, label=None):
+        self.defines_.append((label or 'def#%d' % (len(self.defines_) + 1), parse_expr(expr), expr))
         return self
 
     def assume(self, expr, reason, label=None):
